@@ -133,6 +133,9 @@ func impMutate(r *Rng, doc string) string {
 						break
 					}
 				}
+				if k2 < j || k2 > len(doc) {
+					return doc
+				}
 				return doc[:j] + r.Pick(impFragments) + doc[k2:]
 			}
 		}
